@@ -7,8 +7,10 @@
 import FordModel.Fixed
 import FordModel.FixedSpec
 import FordModel.FixedTree
+import FordModel.FixedProject
 import FordModel.Reader
 import FordModel.Lemmas.Fixed
+import FordModel.Lemmas.FixedRead
 import FordModel.Generated.C14
 namespace Ford.C14
 open Ford Ford.Fixed
@@ -462,5 +464,215 @@ theorem default_fixed_extensions_select_fixed_form :
 example : sourceForm ["F".toList, "f90".toList] ["f".toList, "F".toList] "F".toList = some true ∧
     sourceForm ["F".toList, "f90".toList] ["f".toList, "F".toList] "f90".toList = some false ∧
     sourceForm ["F".toList, "f90".toList] ["f".toList, "F".toList] "txt".toList = none := by decide
+
+/-! ### Round 6 - with which configuration a project's file and its INCLUDEd files are read -/
+
+/-- **A fixed-form file is read with the `fixed_length_limit` *setting*, preprocessed or not**
+    (round 6, class of seed m12).  Whatever the three extension lists and the setting are: a file
+    whose extension is a fixed-form extension is parsed, its reader is constructed with
+    `fixed = True` and `length_limit =` the setting - also when the extension is a preprocessed one
+    (`.F`, `.FOR` of a default project), the only thing that membership in `fpp_extensions`
+    decides is whether the preprocessor runs first.  So "text beyond column 72 ignored when the
+    length limit is on and kept when it is off" is decided by the setting alone. -/
+theorem fixed_file_reader_config (s : ProjSettings) (ext : Str) (h : ext ∈ s.fixedExtensions) :
+    fileCfg s ext = some { fixed := true, lim := s.lengthLimit, pp := s.fppExtensions.contains ext } := by
+  simp [fileCfg, (fixed_extension_selects_fixed_form s.extensions s.fixedExtensions ext).1 h]
+
+/-- **... for every file that is parsed at all the limit handed to the reader is the setting**
+    (free-form files carry it along unused; their INCLUDEd files inherit it). -/
+theorem reader_limit_is_the_setting (s : ProjSettings) (ext : Str) (c : ReaderCfg)
+    (h : fileCfg s ext = some c) : c.lim = s.lengthLimit ∧ c.pp = s.fppExtensions.contains ext := by
+  simp only [fileCfg] at h
+  split at h
+  · cases h
+  · cases h; exact ⟨rfl, rfl⟩
+
+/-- **`preprocess: false` switches the preprocessor off for every file and changes nothing else**:
+    same form, same limit. -/
+theorem preprocess_off_only_drops_the_preprocessor (exts fixedExts fpp : List Str) (lim : Bool) (ext : Str) :
+    fileCfg ⟨exts, fixedExts, effectiveFpp false fpp, lim⟩ ext =
+      (fileCfg ⟨exts, fixedExts, fpp, lim⟩ ext).map includeCfg := by
+  simp only [fileCfg, effectiveFpp]
+  cases sourceForm exts fixedExts ext <;> simp [includeCfg]
+
+/-- **INCLUDEd files inherit form and limit, never the preprocessor - at every depth.** -/
+theorem included_file_inherits_form_and_limit (c : ReaderCfg) :
+    (includeCfg c).fixed = c.fixed ∧ (includeCfg c).lim = c.lim ∧ (includeCfg c).pp = false ∧
+    includeCfg (includeCfg c) = includeCfg c := by
+  simp [includeCfg]
+
+/-- **The default project**: the lists regenerated from `ProjectSettings()` on every run; each
+    fixed-form extension, with preprocessing on or off, either limit setting, is read in fixed form
+    with the setting as its limit; and the situation is not empty - there are default fixed-form
+    extensions that are preprocessed. -/
+theorem default_fixed_extensions_keep_the_limit_setting :
+    (∀ ext ∈ Gen.fixedExtensions, ∀ preprocess lim : Bool,
+      fileCfg ⟨Gen.extensions, Gen.fixedExtensions, effectiveFpp preprocess Gen.fppExtensions, lim⟩ ext =
+        some { fixed := true, lim := lim, pp := (effectiveFpp preprocess Gen.fppExtensions).contains ext }) ∧
+    (∃ ext ∈ Gen.fixedExtensions, Gen.fppExtensions.contains ext = true) := by
+  constructor
+  · intro ext h preprocess lim
+    exact fixed_file_reader_config ⟨_, _, _, lim⟩ ext h
+  · decide
+
+/-- **The probed wiring is the modelled one.**  `Gen.readerCfgProbe` is regenerated on every run
+    by constructing the real `FortranSourceFile` for each of the 8 combinations (fixed, limit
+    setting, preprocessor given) on a file that INCLUDEs another one and recording the arguments
+    the real `FortranReader`s are constructed with: the main reader gets exactly (fixed, setting,
+    preprocessor), the nested reader `includeCfg` of that.  All 8 combinations are present. -/
+theorem reader_config_probe_matches_model :
+    (∀ row ∈ Gen.readerCfgProbe,
+      let c : ReaderCfg := { fixed := row.1.1, lim := row.1.2.1, pp := row.1.2.2 }
+      (⟨row.2.1.1, row.2.1.2.1, row.2.1.2.2⟩ : ReaderCfg) = c ∧
+      (⟨row.2.2.1, row.2.2.2.1, row.2.2.2.2⟩ : ReaderCfg) = includeCfg c) ∧
+    (∀ a b c : Bool, (Gen.readerCfgProbe.map (·.1)).contains (a, b, c) = true) := by
+  decide
+
+/-- **A fixed-form file of a project, preprocessed or not, reads as its free-form equivalent**
+    (round 6).  For every project (any extension lists, either limit setting, preprocessing on or
+    off), every file with a fixed-form extension, every preprocessor `pp` (any function) and every
+    tree of INCLUDEd files: when what reaches the converter - the file itself, or the
+    preprocessor's output for a preprocessed extension - is a well-formed fixed-form file `main`,
+    the items are those of the equivalent free-form tree rendered *with the limit setting*
+    (text beyond column 72 cut iff the setting is on), in the main file and in every INCLUDEd
+    file at every depth. -/
+theorem project_fixed_file_same_as_free_equivalent (ic : Include.Cfg) (v : Variant) (s : ProjSettings)
+    (ext : Str) (hext : ext ∈ s.fixedExtensions) (m : Marks) (pp : List Str → List Str)
+    (ps : List (Str × List Item)) (hwf : ∀ f ∈ ps, WF v f.2) (main : List Item) (hmain : WF v main)
+    (raw : List Str)
+    (hraw : (if s.fppExtensions.contains ext then pp raw else raw) = renderFixed main) (depth : Nat) :
+    ∃ c, fileCfg s ext = some c ∧
+      readProjectFile ic v c m pp (ps.map fun f => (f.1, renderFixed f.2)) depth raw =
+        readFreeTree ic m (ps.map fun f => (f.1, renderFree v s.lengthLimit f.2)) depth
+          (renderFree v s.lengthLimit main) := by
+  refine ⟨_, fixed_file_reader_config s ext hext, ?_⟩
+  rw [← include_tree_same_form_and_limit ic v s.lengthLimit m ps hwf main hmain depth]
+  simp only [readProjectFile, readFixedTree, readerView, includeCfg, hraw, List.map_map]
+  simp [Function.comp_def]
+
+/-- non-vacuity (the `.F` situation of a default project, limit on): the sequence field of a
+    preprocessed fixed-form file is not part of the statement; with the limit off it is -/
+example :
+    (fileCfg ⟨Gen.extensions, Gen.fixedExtensions, Gen.fppExtensions, true⟩ "F".toList).map
+      (fun c => (c, (readProjectFile ⟨true, true, true, true⟩ Variant.repaired c Marks.default id [] 2
+        [("      integer n".toList ++ List.replicate 57 ' ' ++ "FILL0020\n".toList)]).toOption))
+      = some (⟨true, true, true⟩, some ["integer n".toList]) ∧
+    (fileCfg ⟨Gen.extensions, Gen.fixedExtensions, Gen.fppExtensions, false⟩ "F".toList).map
+      (fun c => (c, (readProjectFile ⟨true, true, true, true⟩ Variant.repaired c Marks.default id [] 2
+        [("      integer n".toList ++ List.replicate 57 ' ' ++ "FILL0020\n".toList)]).toOption))
+      = some (⟨true, false, true⟩, some [("integer n".toList ++ List.replicate 57 ' ' ++ "FILL0020".toList)]) := by
+  decide
+
+/-! ### Round 6 - converter and reader composed on one continued statement -/
+
+/-- **A fixed-form statement continued over any number of lines is read as one logical line**
+    (round 6; the composition of the converter with the reader that was "only corresponded").
+    The file: an initial line (any label, column 6 blank or `0`), then any mixture of held-back
+    lines (comment lines of every style, blank lines, `!`-lines) and continuation lines (any
+    column-6 character), a last continuation line, then the rest of the file (which starts a new
+    statement).  `list(FortranReader(file, fixed=True, length_limit=lim))` - converter, then
+    reader - yields the items of the single logical line obtained by joining the statement
+    fields (`Mid.join`: one blank between the pieces), split at `;` outside literals, followed
+    by what the rest of the file yields.  The hypotheses on the individual lines are those of
+    C02's `layout_join`, stated on the *free-form equivalent* of each fixed-form line
+    (`freeLine`): no doc comment on it and its code part is the intended piece;
+    `comment_line_between_is_transparent` / `continuation_line_code_part` below discharge them
+    from the spelling of the fixed-form line.  Every variant of the code, both limit settings,
+    every mark set; no bound on the number of lines. -/
+theorem fixed_statement_reads_as_one_logical_line (v : Variant) (lim : Bool) (m : Marks)
+    (lab5 : Str) (c6 : Char) (body0 : Str) (mid : List Item) (cn : Char) (bodyn : Str) (rest : List Item)
+    (hwf : WF v (.init lab5 c6 body0 :: (mid ++ .cont cn bodyn :: rest)))
+    (hmid : ∀ it ∈ mid, it.midOk = true) (hrest : nextIsCont rest = false)
+    (x : Char) (r : Str) (mids : List Mid) (lead : Bool) (b : Str)
+    (h0 : NoDoc m false (dropNL (freeLine v lim (.init lab5 c6 body0) true)))
+    (hc0 : codeOf false (dropNL (freeLine v lim (.init lab5 c6 body0) true)) = x :: r ++ ['&']) (hx : x ≠ '&')
+    (hr : Rendered m (' ' :: x :: r) mids (mid.map fun it => dropNL (midFree v lim it)))
+    (hn : NoDoc m (unterminated (mids.foldl Mid.join (' ' :: x :: r)))
+      (dropNL (freeLine v lim (.cont cn bodyn) false)))
+    (hcn : codeOf (unterminated (mids.foldl Mid.join (' ' :: x :: r)))
+      (dropNL (freeLine v lim (.cont cn bodyn) false)) = lastCode lead b)
+    (hb : isBlank b = false) (hl : b.getLast? ≠ some '&')
+    (hh : lead = false → ∃ y t, b = y :: t ∧ y ≠ '&')
+    (hJ : itemsOf (Mid.join (mids.foldl Mid.join (' ' :: x :: r)) (.cont lead b)) ≠ []) :
+    readAll m ((convertToFree v lim (renderFixed (.init lab5 c6 body0 :: (mid ++ .cont cn bodyn :: rest)))).map dropNL) =
+      match readAll m ((convertToFree v lim (renderFixed rest)).map dropNL) with
+      | .error e => .error e
+      | .ok more => .ok (itemsOf (Mid.join (mids.foldl Mid.join (' ' :: x :: r)) (.cont lead b)) ++ more) := by
+  have hwr : WF v rest := ⟨fun it hm => hwf.1 it (by simp [hm]), hrest⟩
+  rw [convertToFree_simulation v lim _ hwf, convertToFree_simulation v lim rest hwr]
+  simp only [renderFree, Item.isRegular, Bool.true_and]
+  rw [nextIsCont_mid mid cn bodyn rest hmid, renderFree_mid v lim mid cn bodyn rest hmid]
+  simp only [renderFree, Item.isRegular, Bool.true_and, hrest, List.map_cons, List.map_append, List.map_map]
+  exact continuation_join m _ x r mids _ _ lead b _ h0 hc0 hx hr hn hcn hb hl hh hJ
+
+/-- **Comment lines of every style between the lines of a statement are transparent to the
+    reader.**  The free-form equivalent of a `c`/`C`/`*`/`!` comment line whose text does not
+    begin with a documentation mark carries no doc comment and no code: in
+    `fixed_statement_reads_as_one_logical_line` it is a `Mid.blank`, the joined text is
+    unchanged by it. -/
+theorem comment_line_between_is_transparent (v : Variant) (lim : Bool) (m : Marks) (c : Char) (t : Str)
+    (J : Str) (hJ : unterminated J = false)
+    (h1 : startsWith t m.pre = false) (h2 : startsWith t m.preAlt = false)
+    (h3 : startsWith t m.alt = false) (h4 : startsWith t m.doc = false) (ht : t.getLast? ≠ some '\n') :
+    dropNL (midFree v lim (.comment c (t ++ ['\n']))) = '!' :: t ∧
+    NoDoc m (unterminated J) ('!' :: t) ∧ codeOf (unterminated J) ('!' :: t) = Mid.blank.code ∧
+    Mid.blank.join J = J := by
+  have hd : dropNL (midFree v lim (.comment c (t ++ ['\n']))) = '!' :: t := by
+    have : ('!' :: (t ++ ['\n'])) = ('!' :: t) ++ ['\n'] := rfl
+    simp only [midFree, freeLine, dropNL, this, List.getLast?_append, List.dropLast_concat]
+    simp
+  rw [hJ]
+  exact ⟨hd, (comment_line_no_code m t h1 h2 h3 h4).1, (comment_line_no_code m t h1 h2 h3 h4).2, rfl⟩
+
+/-- non-vacuity of `fixed_statement_reads_as_one_logical_line`: label, column-6 `0`, three
+    continuation characters, a `C` comment line, a blank line and a `*` comment line in between,
+    then a second statement - two items, the first one the joined statement -/
+example :
+    (readAll Marks.default ((convertToFree Variant.repaired true
+      ["  10 0call f(a,\n".toList, "C note\n".toList, "     &  b,\n".toList, "\n".toList, "* more\n".toList,
+       "     1  c)\n".toList, "      x = 1\n".toList]).map dropNL)).toOption
+      = some ["10 call f(a, b, c)".toList, "x = 1".toList] := by decide
+
+/-- **The statement field of a continuation line is the piece that is joined** - whatever the
+    continuation character in column 6.  For a continuation line that is not cut (limit off, or
+    nothing beyond column 72) whose statement field is comment-free and quote-closed, does not
+    start with `&` or `#` and is not blank: its free-form equivalent is the field with ` &`
+    appended, carries no doc comment, and in `fixed_statement_reads_as_one_logical_line` it is the
+    piece `Mid.cont false` of the field without the blanks around it - joined to what came before
+    with exactly one blank. -/
+theorem continuation_line_code_part (v : Variant) (lim : Bool) (m : Marks) (c : Char) (body J : Str)
+    (hJ : unterminated J = false) (hshort : lim = false ∨ body.length ≤ 66)
+    (hs : Atoms (rstrip body ++ [' ', '&'])) (hne : isBlank (rstrip body) = false)
+    (hhead : ∀ y, (lstrip (rstrip body)).head? = some y → y ≠ '&' ∧ y ≠ '#') :
+    dropNL (midFree v lim (.cont c body)) = rstrip body ++ [' ', '&'] ∧
+    NoDoc m (unterminated J) (rstrip body ++ [' ', '&']) ∧
+    codeOf (unterminated J) (rstrip body ++ [' ', '&']) = (Mid.cont false (lstrip (rstrip body) ++ [' '])).code ∧
+    (Mid.cont false (lstrip (rstrip body) ++ [' '])).wf ∧
+    (Mid.cont false (lstrip (rstrip body) ++ [' '])).join J = strip J ++ ' ' :: (lstrip (rstrip body) ++ [' ']) := by
+  obtain ⟨y, r, hy, hsp⟩ := lstrip_ne_nil_of_not_blank _ hne
+  have hyy := hhead y (by simp [hy])
+  have hd : dropNL (midFree v lim (.cont c body)) = rstrip body ++ [' ', '&'] := by
+    have hcond : (lim && decide (body.length > 66)) = false := by
+      rcases hshort with h | h
+      · simp [h]
+      · have : ¬ body.length > 66 := by omega
+        simp [this]
+    have : rstrip body ++ [' ', '&', '\n'] = (rstrip body ++ [' ', '&']) ++ ['\n'] := by simp
+    simp only [midFree, freeLine, Item.isRegular, freeCode, hcond, Bool.false_eq_true, ↓reduceIte,
+      List.nil_append, this, dropNL, List.getLast?_append, List.dropLast_concat]
+    simp
+  rw [hJ]
+  refine ⟨hd, ⟨?_, matchDocmark_plain _ _ hs, matchDocmark_plain _ _ hs, matchDocmark_plain _ _ hs,
+    matchDocmark_plain _ _ hs⟩, ?_, ?_, rfl⟩
+  · simp only [firstStripped, lstrip_append_of_not_blank _ _ hne, hy]
+    simpa using hyy.2
+  · rw [codeOf_continued _ hs hne]; rfl
+  · exact ⟨y, r ++ [' '], by simp [hy], hyy.1⟩
+
+/-- non-vacuity of `continuation_line_code_part`: column 6 is `$`, the field has blanks on both
+    sides and a literal with `!` and `&` in it -/
+example :
+    dropNL (midFree Variant.repaired true (.cont '$' "   b // 'it!&'  ".toList)) = "   b // 'it!&' &".toList ∧
+    codeOf false "   b // 'it!&' &".toList = (Mid.cont false "b // 'it!&' ".toList).code := by decide
 
 end Ford.C14
